@@ -439,10 +439,48 @@ func preInstantiate(lines []string, pc, goal string, nameHint int, baseSorts map
 	g2 := skolemize(g, true, fresh, &sks)
 	negGoal = "(assert (not " + g2.String() + "))"
 	groundGoal := len(sks) == 0
-	if groundGoal && (lines == nil || len(groundGoalHyps) == 0 || !strings.Contains(goal, "(select ")) {
+	// witness mode: the lemma instances introduced skolem witnesses (membw ...): every quantified
+	// hypothesis is instantiated at these witnesses and at the relative slice indices in scope
+	witnesses := map[string]*sx_{}
+	for _, l := range groundGoalHyps {
+		if strings.Contains(l, "(membw ") {
+			if t := parseSexpr(l); t != nil {
+				collectApps(t, "membw", map[string]bool{}, witnesses)
+			}
+		}
+	}
+	if len(witnesses) > 4 {
+		// keep the ones mentioned together with goal symbols
+		ga := map[string]bool{}
+		collectAtoms(g, ga)
+		kept := map[string]*sx_{}
+		var ks []string
+		for k := range witnesses {
+			ks = append(ks, k)
+		}
+		sortKeys(ks)
+		for _, k := range ks {
+			score := 0
+			wa := map[string]bool{}
+			collectAtoms(witnesses[k], wa)
+			for a := range wa {
+				if ga[a] {
+					score++
+				}
+			}
+			if score >= 3 && len(kept) < 4 {
+				kept[k] = witnesses[k]
+			}
+		}
+		if len(kept) > 0 {
+			witnesses = kept
+		}
+	}
+	witnessMode := len(witnesses) > 0 && lines != nil
+	if groundGoal && !witnessMode && (lines == nil || len(groundGoalHyps) == 0 || !strings.Contains(goal, "(select ")) {
 		return nil, nil, negGoal
 	}
-	if groundGoal {
+	if groundGoal && !witnessMode {
 		// for quantifier-free goals only the lemma instances are instantiated further
 		lines = append(append([]string{}, declLines(lines)...), groundGoalHyps...)
 	}
@@ -504,8 +542,59 @@ func preInstantiate(lines []string, pc, goal string, nameHint int, baseSorts map
 				break
 			}
 		}
-		if n == 0 {
+		if n == 0 && !witnessMode {
 			return nil, nil, negGoal
+		}
+	}
+	if witnessMode {
+		if cands["Int"] == nil {
+			cands["Int"] = map[string]*sx_{}
+		}
+		nw := 0
+		var wk []string
+		for k := range witnesses {
+			wk = append(wk, k)
+		}
+		sortKeys(wk)
+		for _, k := range wk {
+			if nw < 4 {
+				cands["Int"][k] = witnesses[k]
+				nw++
+			}
+		}
+		// relative slice indices (atoms) of the ground select terms in scope, latest first
+		nrel := 0
+		for li := len(lines) - 1; li >= 0 && nrel < 5; li-- {
+			l := lines[li]
+			if !strings.HasPrefix(l, "(assert") || !strings.Contains(l, "(select ") {
+				continue
+			}
+			t := parseSexpr(l)
+			if t == nil {
+				continue
+			}
+			allAtoms := map[string]bool{}
+			collectAtoms(t, allAtoms)
+			tmp := map[string]map[string]*sx_{}
+			indexTerms(t, allAtoms, sorts, tmp)
+			var ks []string
+			for k := range tmp["Int"] {
+				ks = append(ks, k)
+			}
+			sortKeys(ks)
+			for _, k := range ks {
+				tt := tmp["Int"][k]
+				if tt.isList() || sorts[tt.atom] != "Int" {
+					continue
+				}
+				if _, lit := parseSMTIntStrict(k); lit {
+					continue
+				}
+				if _, have := cands["Int"][k]; !have && nrel < 5 {
+					cands["Int"][k] = tt
+					nrel++
+				}
+			}
 		}
 	}
 	// neighbours of integer skolems (predecessor): typical for inductive arguments
@@ -530,7 +619,7 @@ func preInstantiate(lines []string, pc, goal string, nameHint int, baseSorts map
 			continue
 		}
 		hyps = append(hyps, t.kids[1])
-		if lemmaSet[l] {
+		if lemmaSet[l] || witnessMode {
 			deep[t.kids[1]] = true
 		}
 	}
@@ -564,8 +653,13 @@ func preInstantiate(lines []string, pc, goal string, nameHint int, baseSorts map
 			}
 			sort2 := sort
 			sortKeys(keys)
-			if len(keys) > 6 {
-				keys = keys[:6]
+			if lim := 6; len(keys) > lim {
+				if witnessMode {
+					lim = 10
+				}
+				if len(keys) > lim {
+					keys = keys[:lim]
+				}
 			}
 			for _, k := range keys {
 				cs[sort2] = append(cs[sort2], m[k])
